@@ -143,7 +143,8 @@ def run(rep):
                     why = 'output written'
                 if why:
                     n1 += 1
-                    rep.finding_or_violation('C18:unchecked:%s' % c['elem'], 'unchecked <%s>: %s' % (c['elem'], why),
+                    key = 'C18:unchecked:%s:%s:%s' % (c['elem'], c['ops'][i][0], o['st']) if st != est else 'C18:unchecked:%s' % c['elem']
+                    rep.finding_or_violation(key, 'unchecked <%s>: %s' % (c['elem'], why),
                                              {'elem': c['elem'], 'ops': c['ops'][:i + 1], 'why': why})
                     break
         # (2) byte-identical twins
